@@ -24,5 +24,7 @@ RULES = [
     # a node linked in front of the bucket node of its own hash is never found by the unlink that del / replace start from that bucket
     ("C07.unique", lambda c, r: lfht.rule_unique(c, r, "C07.unique")),
     ("C07.wq", lambda c, r: __import__("sa.rules.wq", fromlist=["x"]).rule_workqueue(c, r, "C07.wq")),   # the work queue that executes resizes / deferred destroys
+    ("C07.del", lambda c, r: __import__("sa.rules.lfht2", fromlist=["x"]).rule_del(c, r, "C07.del")),
+    ("C07.delbucket", lambda c, r: __import__("sa.rules.lfht2", fromlist=["x"]).rule_delete_bucket(c, r, "C07.delbucket")),
 ]
 FLOORS = {}
